@@ -15,7 +15,7 @@ RULE = ("every element length 0..521 (exhaustive) x 3 byte patterns; every non-p
         "random multi-element scripts; EVERY prefix of every generated serialisation, single-byte corruptions and random byte "
         "strings as a differential against a strict parser; varints at and around 0xfc/0xfd/0xffff/0x10000/0xffffffff/2^32/"
         "2^64 plus random and every truncation of their encodings; distinct = distinct (monitor, case) digests"
-        " EXTENSIONS: + scripts whose total size sits on the varint thresholds of the length prefix (252/253, 65535/65536/65537, 128 KiB; thorough 16 MiB), elements around 65536 and 2^20 bytes, script histories across refused serialisations")
+        " EXTENSIONS: + scripts whose total size sits on the varint thresholds of the length prefix (252/253, 65535/65536/65537, 128 KiB; thorough 16 MiB), elements around 65536 and 2^20 bytes, script histories across refused serialisations, standard templates and their neighbours (extra commands, every prefix, declared length off by -2..+3, two records)")
 LEVEL_TEXT = ("Each raw_serialize / serialize / parse / encode_varint / read_varint execution is compared with an own strict "
               "codec: push opcodes by length class, refusal above 520 bytes, exact round trip; the parser is run as a "
               "differential over all prefixes and corruptions: it must fail whenever the strict parser fails (input that ends "
@@ -381,6 +381,33 @@ def run(ctx):
         body = b"".join(parts)
         buf = rscr.enc_varint(len(body)) + body + (gen.rbytes(rnd, rnd.randrange(0, 4)) if rnd.random() < 0.7 else b"")
         judge_parse_diff(ctx, {"buf": buf, "tag": "nonminimal-push"})
+    # the STANDARD templates (what almost every real script is - a parser may well treat them specially) and their neighbours:
+    # each template alone, with one to three extra commands in front / behind / in the middle, with every prefix cut, and
+    # with a declared length that is off by -2..+3 with or without further bytes behind it
+    h20, h32, pk33 = gen.rbytes(rnd, 20), gen.rbytes(rnd, 32), b"\x02" + gen.rbytes(rnd, 32)
+    templates = {"p2pkh": [0x76, 0xA9, h20, 0x88, 0xAC], "p2sh": [0xA9, h20, 0x87], "p2wpkh": [0x00, h20], "p2wsh": [0x00, h32],
+                 "p2tr": [0x51, h32], "p2pk": [pk33, 0xAC], "multisig": [0x51, pk33, 0x51, 0xAE], "nulldata": [0x6A, gen.rbytes(rnd, 8)]}
+    extras = [[0x61], [0xAC], [0x75, 0x51], [b"\x01"], [gen.rbytes(rnd, 3)], [0x63, 0x51, 0x67, 0x00, 0x68], [h20], [0x00]]
+    for tname, tcmds in sorted(templates.items()):
+        variants = [("alone", list(tcmds))]
+        for ei, ex in enumerate(extras):
+            variants += [("tail%d" % ei, list(tcmds) + ex), ("head%d" % ei, ex + list(tcmds)), ("mid%d" % ei, list(tcmds[:1]) + ex + list(tcmds[1:]))]
+        variants.append(("twice", list(tcmds) + list(tcmds)))
+        for vname, cmds in variants:
+            n += 1
+            if not ctx.mine(n):
+                continue
+            judge_script_roundtrip(ctx, {"cmds": cmds})
+            ser = rscr.serialize(cmds)
+            body = rscr.raw_serialize(cmds)
+            judge_parse_diff(ctx, {"buf": ser, "tag": "template-canonical", "canonical": True})
+            for cut in range(len(ser)):
+                judge_parse_diff(ctx, {"buf": ser[:cut], "tag": "template-prefix"})
+            for d in (-2, -1, 1, 2, 3):
+                if len(body) + d >= 0:
+                    judge_parse_diff(ctx, {"buf": rscr.enc_varint(len(body) + d) + body, "tag": "template-declared-length-off"})
+                    judge_parse_diff(ctx, {"buf": rscr.enc_varint(len(body) + d) + body + gen.rbytes(rnd, 6), "tag": "template-declared-length-off-more-bytes"})
+            judge_parse_diff(ctx, {"buf": ser + ser, "tag": "template-two-records"})
     # crafted truncations (the D3 shapes)
     for buf, tag in ((b"\x15\x14" + b"\xaa" * 5, "short-push"), (b"\xfd", "varint-fd"), (b"\xfe\x01\x00", "varint-fe"), (b"\xff" + b"\x00" * 7, "varint-ff"),
                      (b"\x02\x4c", "pd1-nolen"), (b"\x03\x4d\x05", "pd2-halflen"), (b"\x03\x4c\x05\x01", "pd1-short"), (b"", "empty"),
@@ -397,9 +424,33 @@ def run(ctx):
         judge_varint(ctx, {"v": rnd.getrandbits(bits)})
     for _ in range(ctx.scale(40, 4000)):
         judge_varint(ctx, {"v": rnd.choice([1, -1]) * rnd.randrange(1 << 64, 1 << 80) if rnd.random() < 0.7 else -rnd.randrange(1, 1 << 64)})
+    # K+3 distinct requests per harvested threshold K, then a second look at the earliest answers (vpkg.longrun.ask_again)
+    from .. import longrun
+    longrun.histories(ctx, "history", "C19", history_specs(), first_job=2)
+    ctx.extra["harvested_thresholds"] = longrun.thresholds()
+
+
+def history_specs():
+    import btc_hd_wallet.helper as h
+    import hashlib as _hl
+
+    def cmds(j):
+        d = _hl.sha256(b"vp-c19-%d" % j).digest()
+        return [0x76, 0xA9, d[:20], 0x88, 0xAC] if j % 3 == 0 else ([0x00, d] if j % 3 == 1 else [d[:1 + j % 31], 0x51 + j % 16, d[:j % 7 + 1]])
+    return [
+        ("Script.parse", lambda buf: mk([]).parse(BytesIO(buf)).cmds, lambda j: (rscr.serialize(cmds(j)), cmds(j))),
+        ("Script.serialize", lambda c: mk(list(c)).serialize(), lambda j: (cmds(j), rscr.serialize(cmds(j)))),
+        ("encode_varint", h.encode_varint, lambda j: (j * 2654435761 % (1 << (8, 16, 32, 40)[j % 4]), rscr.enc_varint(j * 2654435761 % (1 << (8, 16, 32, 40)[j % 4])))),
+    ]
 
 
 def replay(ctx, monitor, case):
+    if monitor == "history":
+        from .. import longrun
+        for name, fn, make in history_specs():
+            if name == case["function"]:
+                longrun.ask_again(ctx, "history", "C19", name, fn, make, case["n"], case["k"])
+        return
     if monitor == "script_history":
         case["ops"] = [tuple(o) for o in case["ops"]]
         return judge_script_history(ctx, case)
